@@ -82,7 +82,13 @@ func genValue(r *fw.Rng) string {
 func genSMGPID(r *fw.Rng) string {
 	for {
 		b := r.Bytes(10)
-		switch r.Intn(4) {
+		switch r.Intn(5) {
+		case 4: // a few decimal digits, a blank, then anything (BCD ids look like this: 31 20 05 12 …)
+			k := r.Range(1, 9)
+			for i := 0; i < k; i++ {
+				b[i] = byte('0' + r.Intn(10))
+			}
+			b[k] = ' '
 		case 0:
 			b[r.Intn(10)] = ' '
 		case 1:
